@@ -274,14 +274,20 @@ func foldASCII(a, b []byte) bool {
 // unsortOK: reversing the record's lists gives another spelling of the SAME record (the
 // packed octets do not change: SVCB/HTTPS parameters are sorted by key on the wire).
 func (in *inst) unsortOK() bool {
-	a := in.make(abs{1, 1, 'a', 1, 'x', 0})
-	b := in.make(abs{1, 1, 'a', 1, 'x', 0})
-	if !rw.Unsort(b) {
+	return respell(in.make(abs{1, 1, 'a', 1, 'x', 0}))
+}
+
+// respell reverses every list of rr whose order is not part of the record: the packed octets
+// stay the same.
+func respell(rr dns.RR) bool {
+	w0, err := packRR(rr)
+	if err != nil {
 		return false
 	}
-	wa, e1 := packRR(a)
-	wb, e2 := packRR(b)
-	return e1 == nil && e2 == nil && bytes.Equal(wa, wb)
+	return rw.UnsortIf(rr, func() bool {
+		w1, err := packRR(rr)
+		return err == nil && bytes.Equal(w0, w1)
+	})
 }
 
 // textual reports whether changing the value cell changes the record's text (Dedup works on text).
@@ -386,7 +392,7 @@ func (rp *replayer) pairsU(in *inst, vecs []*vec, useName, useVal, ua, ub bool) 
 	mk := func(a abs, u bool) dns.RR {
 		r := in.make(a)
 		if u {
-			rw.Unsort(r)
+			respell(r)
 		}
 		return r
 	}
@@ -958,13 +964,8 @@ func record(out string, n int) {
 				// another spelling of the same octets: the lists of the decoded record reversed,
 				// where the library packs that to the same wire form
 				for _, side := range []dns.RR{ra, rb}[rng.Intn(2):][:1] {
-					w0, e0 := packRR(side)
-					cp := dns.Copy(side)
-					if e0 == nil && rw.Unsort(cp) {
-						if w1, e1 := packRR(cp); e1 == nil && bytes.Equal(w0, w1) {
-							rw.Unsort(side)
-							r += "+reordered"
-						}
+					if respell(side) {
+						r += "+reordered"
 					}
 				}
 			}
